@@ -147,6 +147,7 @@ type ownState struct {
 }
 
 type deferredPut struct {
+	obj types.Object // the *[]byte / buffer variable, when the argument is a plain identifier
 	toks tokSet
 	pos  token.Pos
 	arg  string
@@ -415,6 +416,19 @@ func (s *ownState) step(n ast.Node, fd *ast.FuncDecl, ptrParams []types.Object) 
 			for t := range toks {
 				if s.freed[t] {
 					s.viol = append(s.viol, ownViol{"O2", r.Pos(), "returned value `" + exprStr(r) + "` aliases " + s.names[t] + ", which was returned to the pool at " + s.p.Pos(s.freedAt[t]) + ": a later call reusing the pooled buffer overwrites bytes the caller owns"})
+					continue
+				}
+				// results are evaluated first, then the deferred puts run: what the pointer
+				// variable refers to *now* is what goes back into the pool
+				for _, d := range s.defers {
+					hit := d.toks[t]
+					if d.obj != nil && s.places[placeKey(d.obj, true)][t] {
+						hit = true
+					}
+					if hit {
+						s.viol = append(s.viol, ownViol{"O2", r.Pos(), "returned value `" + exprStr(r) + "` aliases " + s.names[t] + ", which the deferred put of `" + d.arg + "` at " + s.p.Pos(d.pos) + " returns to the pool when this function exits: a later call reusing the pooled buffer overwrites bytes the caller owns"})
+						break
+					}
 				}
 			}
 		}
@@ -436,7 +450,11 @@ func (s *ownState) step(n ast.Node, fd *ast.FuncDecl, ptrParams []types.Object) 
 			for t := range toks {
 				cp[t] = true
 			}
-			s.defers = append(s.defers, deferredPut{cp, x.Pos(), exprStr(arg)})
+			var dobj types.Object
+			if id, ok := arg.(*ast.Ident); ok && (pf.kind == "slice" || pf.kind == "buffer") {
+				dobj = s.p.ObjectOf(id)
+			}
+			s.defers = append(s.defers, deferredPut{obj: dobj, toks: cp, pos: x.Pos(), arg: exprStr(arg)})
 		}
 	case *ast.IncDecStmt, *ast.GoStmt, *ast.SendStmt:
 	}
